@@ -202,9 +202,12 @@ def instances(r):
         p = r.choice(NOTE_PARAMS)
         vals = {"onset_tolerance": [1 / 64, 1 / 32, 0.05, 1 / 16, 1 / 8, 0.5],
                 "pitch_tolerance": [0.0, 12.5, 25.0, 50.0, 100.0, 1200.0],
-                "offset_ratio": [0.0, 0.125, 0.2, 0.25, 0.5, 1.0],
+                "offset_ratio": [0.0, 0.04, 0.08, 0.125, 0.2, 0.25, 0.5, 1.0],
                 "offset_min_tolerance": [0.0, 1 / 64, 1 / 32, 0.05, 1 / 8, 0.5]}[p]
         kw = dict(base)
+        if r.random() < 0.5:
+            # non-default floor: the tolerance must stay monotone in offset_ratio
+            kw["offset_min_tolerance"] = r.choice([0.1, 0.2, 1 / 32, 1 / 8, 0.05])
         if p == "offset_ratio":
             kw.pop("offset_ratio")
         if p == "offset_min_tolerance" and kw.get("offset_ratio") is None:
@@ -216,8 +219,11 @@ def instances(r):
                          "onset_tolerance", [1 / 64, 1 / 32, 0.05, 1 / 8, 0.5], [0, 1, 2],
                          ("onsets", n["ref_iv"], n["est_iv"], strict)))
         op = r.choice(["offset_ratio", "offset_min_tolerance"])
+        okw = {"strict": strict}
+        if op == "offset_ratio" and r.random() < 0.5:
+            okw["offset_min_tolerance"] = r.choice([0.1, 0.2, 1 / 32, 1 / 8])
         out.append(chain("transcription.offset_precision_recall_f1",
-                         (n["ref_iv"], n["est_iv"]), {"strict": strict}, op,
+                         (n["ref_iv"], n["est_iv"]), okw, op,
                          [0.0, 1 / 32, 0.05, 0.2, 0.25, 0.5], [0, 1, 2],
                          ("offsets", n["ref_iv"], n["est_iv"], op, strict)))
         out.append(chain("transcription_velocity.precision_recall_f1_overlap", a6,
